@@ -265,7 +265,10 @@ class Complementary:
         # Estimation for 2-dimensional arrays
         angles = np.zeros_like(acc)   # Allocation of angles array
         # Estimate tilt angles
-        a = acc/np.linalg.norm(acc, axis=1)[:, None]
+        a_norm = np.linalg.norm(acc, axis=1)[:, None]
+        if not np.all(a_norm > 0):
+            raise ValueError("All gravitational acceleration measurements must be non-zero.")
+        a = acc/a_norm
         angles[:, 0] = np.arctan2(a[:, 1], a[:, 2])
         angles[:, 1] = np.arctan2(-a[:, 0], np.sqrt(a[:, 1]**2 + a[:, 2]**2))
         if mag is not None:
